@@ -628,3 +628,49 @@ def c20_r8(ctx):
     ok = any(isinstance(st, ast.Assign) and norm.canon(st.targets[0]) in ('self.extras["indextype"]', "self.extras['indextype']")
              and norm.deep_canon(st.value, w.node).endswith(".typecode") for st in ast.walk(w.node))
     ctx.ob(w, ok, "the writer records the index array's own typecode")
+
+
+@rule("C20", "R9", "K2", "an ordered hash file refuses an out-of-order key before it records anything of it",
+      min_instances=2,
+      clause="In OrderedHashWriter.add and FieldedOrderedHashWriter.add the order check (`raise ValueError` for a key that does not "
+             "increase) lies before every statement that changes the writer (index.append, HashWriter.add, lastkey): no path changes "
+             "state and then raises. A caller that catches the error and goes on would otherwise leave a phantom entry in the position "
+             "index, which closest_key()/keys_from() then read as a key.")
+def c20_r9(ctx):
+    prog = ctx.prog
+    n = 0
+    for cname in ("filedb.filetables.OrderedHashWriter", "filedb.filetables.FieldedOrderedHashWriter"):
+        f = prog.method(cname, "add", inherited=False)
+        ctx.saw(f)
+        g = cfgmod.cfg_of(f, exc_edges=False)
+        raises = [x for x in g.nodes if x.kind == "raise_stmt"]
+        if not raises:
+            raise AnalysisError("%s.add no longer raises for out-of-order keys" % cname)
+
+        def mutates(x):
+            a = x.ast
+            if a is None or x.kind != "stmt":
+                return False
+            if isinstance(a, (ast.Assign, ast.AugAssign)):
+                for t in (a.targets if isinstance(a, ast.Assign) else [a.target]):
+                    y = t
+                    while isinstance(y, ast.Subscript):
+                        y = y.value
+                    if isinstance(y, ast.Attribute) and norm.canon(y).startswith("self."):
+                        return True
+            for e in cfgmod.node_exprs(x):
+                for c in norm.calls_in(e):
+                    if isinstance(c.func, ast.Attribute) and c.func.attr in ("append", "extend", "add", "write", "insert") and (
+                            norm.canon(c.func.value).startswith("self.") or (c.args and norm.canon(c.args[0]) == "self")):
+                        return True
+            return False
+        n += 1
+        bad = None
+        for m in [x for x in g.nodes if mutates(x)]:
+            p = cfgmod.find_path(g, m, lambda y: y in raises)
+            if p:
+                bad = [m] + p
+        ctx.ob(f, bad is None, "no path changes the writer and then refuses the key",
+               detail="state recorded for a key that is then rejected" if bad else "", path=cfgmod.path_text(bad) if bad else None)
+    if n < 2:
+        raise AnalysisError("ordered hash writers vanished")
